@@ -153,6 +153,25 @@ def run(c, case):
         conv = it.instantiate(cls(it, 'emsarray.conventions.grid', 'CFGrid1D'), [ds], {})
         return {'wind': [[conc(x) for x in method(it, conv, 'wind_index', n)] for n in range(ny * nx)],
                 'ravel': [conc(method(it, conv, 'ravel_index', (j, i))) for j in range(ny) for i in range(nx)]}
+    if f == 'np_view_store':
+        a = np.asarray([[10, 11], [20, 21], [30, 31]])
+        how = case['how']
+        if how == 'transpose-row-mask':
+            x, y = list(it.iterate(np.transpose(a)))
+            x._setitem(np.asarray([True, False, True], dtype=np.BOOL), -1)
+        elif how == 'slice-element':
+            v = a._getitem((slice(1, 3),))
+            v._setitem((0, 1), -5)
+        elif how == 'row-slice':
+            v = a._getitem((2,))
+            v._setitem((0,), 7)
+        else:
+            v = a._getitem((slice(None), 1))
+            v._setitem((1,), -9)
+        return {'a': arr_list(a)}
+    if f == 'np_diff':
+        kw = {k: case[k] for k in ('prepend', 'append') if case[k] is not None}
+        return {'d': arr_list(np.diff(np.asarray(case['vals']), **kw))}
     if f == 'np_reshape':
         import numpy
         vals = numpy.arange(int(numpy.prod(case['shape'])))
@@ -188,6 +207,7 @@ RULE_CASES = [
     ('objects created inside the iteration may be modified', "for x in seq:\n    tmp = [x]\n    tmp.append(2)\n    m = {}\n    m['a'] = tmp\n    lst.append(m)\n", 'collected'),
     ('nonlocal of the enclosing function rebound by a helper called in the loop',
      "def outer():\n    count = 0\n    def bump(x):\n        nonlocal count\n        count = count + x\n    for x in seq:\n        bump(x)\n    return count\nr = outer()\n", 'unsupported'),
+    ('add to a set from outside the loop', "acc = set()\nfor x in seq:\n    acc.add(x)\n", 'unsupported'),
     ('events only', "for x in seq:\n    rec(x)\n", 'events'),
 ]
 RULE_PRELUDE = """
@@ -238,9 +258,57 @@ def engine_rules():
     return bad
 
 
+def invariant_rule():
+    """The LOOP-INVARIANT rule on a summation loop: a correct invariant is accepted, a wrong body / a wrong entry state is refuted."""
+    from pyvc import vc
+    from pyvc.api import LoopSpec, loop_invariant
+    from pyvc.lib.seq import SymSeq
+    from pyvc.core import mk_int
+    bad = 0
+    cases = [('sum of the items', 'def f(seq):\n    total = 0\n    for x in seq:\n        total = total + x\n    return total\n', True),
+             ('body adds one more than the invariant says', 'def f(seq):\n    total = 0\n    for x in seq:\n        total = total + x + 1\n    return total\n', False),
+             ('entry state differs from the invariant', 'def f(seq):\n    total = 5\n    for x in seq:\n        total = total + x\n    return total\n', False)]
+    for name, src, want_ok in cases:
+        def scenario(c, src=src):
+            it = new_interp()
+            n = c.fresh_int('n')
+            c.assume(n >= 0)
+            vals = c.fresh_fn('val', z3.IntSort(), z3.IntSort())
+            S = c.fresh_fn('S', z3.IntSort(), z3.IntSort())
+            seq = SymSeq(n, lambda k: mk_int(vals(core.zint(k))), 'list')
+            env = it.run_snippet('emsarray.utils', src, {})
+            f = env['f']
+
+            def init(e):
+                c.check('invariant on entry: total = S(0) = 0', core.s_eq(e.lookup('total'), 0))
+                c.assume(S(0) == 0)
+
+            def havoc(e, k):
+                c.assume(S(core.zint(k) + 1) == S(core.zint(k)) + vals(core.zint(k)))
+                e.vars['total'] = mk_int(S(core.zint(k)))
+
+            def step(e, k):
+                c.check('invariant preserved: total = S(k + 1)', core.s_eq(e.lookup('total'), mk_int(S(core.zint(k) + 1))))
+
+            def final(e, m):
+                e.vars['total'] = mk_int(S(core.zint(m)))
+            loop_invariant(it, f, 'for x in seq', LoopSpec(init, havoc, step, final))
+            r = call(it, f, seq)
+            c.check('the result is S(n)', core.s_eq(r, mk_int(S(n.z))))
+        res = core.explore(scenario, max_paths=10)
+        verdicts, _ = vc.discharge(res.obligations)
+        ok = not res.unsupported and len(verdicts) == 3 and all(v.status == 'discharged' for v in verdicts)
+        refuted = any(v.status == 'refuted' for v in verdicts)
+        if (want_ok and not ok) or (not want_ok and not refuted):
+            bad += 1
+            print(f'SELFCHECK-RULE-MISMATCH invariant rule, {name}: {[(v.name, v.status) for v in verdicts]} unsupported={res.unsupported[:1]}')
+    print(f'SELFCHECK invariant-rule cases={len(cases)} mismatches={bad}')
+    return bad
+
+
 def main():
     seed = int(sys.argv[1]) if len(sys.argv) > 1 else 0
-    if engine_rules():
+    if engine_rules() or invariant_rule():
         return 3
     with tempfile.TemporaryDirectory() as tmp:
         out = os.path.join(tmp, 'native.json')
